@@ -3,10 +3,18 @@
 stdin : JSON list of cases  dict(pg=<page size>, size=<Heap(size)>, ops=[...], real=<bool>)
         ops:  ['m', n]      block_k = heap.malloc(n)        (k = number of mallocs so far)
               ['f', k]      heap.free(block_k)              (try-lock succeeds)
-              ['d', k]      heap.free(block_k) while heap._lock is held -> deferred
+              ['d', k]      heap.free(block_k) while another thread holds heap._lock -> deferred
               ['g', n, k]   heap.malloc(n) during which a finaliser calls heap.free(block_k)
                             (after the pending list was drained, while the lock is held)
-stdout: JSON list of dict(obs=[[err, [arena#, start, stop], n_arenas, n_free], ...], snap={...})
+              ['M', n, t, k]  heap.malloc(n)      } during which THIS thread calls heap.free(block_k), the way a
+              ['F', j, t, k]  heap.free(block_j)  } finaliser run by the garbage collector does (re-entrant free):
+                            t = -1: when _free_pending_blocks is entered (lock held, pending list not yet drained);
+                            t >= 0: at the t-th line of heap.py executed after _free_pending_blocks returned (any
+                            line of malloc/free/_malloc/_free/_absorb/_roundup up to and including the release of
+                            the lock).  If the op has fewer lines the nested free does not happen (aux.fired = 0).
+stdout: JSON list of dict(obs=[[err, [arena#, start, stop], n_arenas, n_free], ...], snap={...},
+                          aux=[{pending: [blocks in _pending_free_blocks after the op], fired: 0/1,
+                                nested_err: exception name raised by the nested free or null}, ...])
 
 `Arena` is replaced by a size-only stub unless real=True (then the real mmap-backed
 Arena is used and a byte pattern is written through a memoryview into every live
@@ -16,6 +24,7 @@ mmap.PAGESIZE as seen by heap.py is replaced by the case's page size (stub only)
 import json
 import signal
 import sys
+import threading
 import types
 import mmap as real_mmap
 
@@ -64,11 +73,93 @@ def n_free(heap):
 
 
 def deferred_free(heap, b):
-    heap._lock.acquire()
+    """heap.free(b) while ANOTHER thread holds the heap lock (whatever kind of lock it is)"""
+    held = threading.Event()
+    done = threading.Event()
+
+    def holder():
+        heap._lock.acquire()
+        held.set()
+        done.wait()
+        heap._lock.release()
+    th = threading.Thread(target=holder)
+    th.daemon = True
+    th.start()
+    held.wait()
     try:
         heap.free(b)
     finally:
-        heap._lock.release()
+        done.set()
+        th.join()
+
+
+def force_unlock(lock):
+    """after an exception escaped from malloc/free: leave the lock released, whatever its kind"""
+    for _ in range(8):
+        try:
+            lock.release()
+        except RuntimeError:
+            return
+
+
+HEAP_FILE = bh.Heap.malloc.__code__.co_filename
+NESTED_EXC = (KeyError, IndexError, ValueError, AssertionError, TypeError, AttributeError, RuntimeError)
+
+
+class Nested:
+    """heap.free(victim) issued by the thread that is inside heap.malloc()/heap.free() -- what a finaliser
+    does when the garbage collector runs at that moment.  The point is chosen with sys.settrace:
+    t = -1: on entry to _free_pending_blocks; t >= 0: at the t-th heap.py line after it returned.
+    An exception of the nested free is recorded and swallowed (as for a finaliser), the outer op goes on."""
+
+    def __init__(self, heap, victim, t):
+        self.heap, self.victim, self.t = heap, victim, t
+        self.state = 'wait'       # wait -> drain -> post
+        self.count = 0
+        self.fired = 0
+        self.err = None
+        self.drain_frame = None
+
+    def fire(self):
+        self.fired = 1
+        sys.settrace(None)
+        try:
+            self.heap.free(self.victim)
+        except NESTED_EXC as exc:
+            self.err = type(exc).__name__
+
+    def on_call(self, frame, event, arg):
+        if self.fired or frame.f_code.co_filename != HEAP_FILE:
+            return None
+        if self.state == 'wait' and frame.f_code.co_name == '_free_pending_blocks':
+            if self.t < 0:
+                self.fire()
+                return None
+            self.state = 'drain'
+            self.drain_frame = frame
+            return self.on_drain
+        if self.state == 'drain':
+            return None
+        return self.on_line
+
+    def on_drain(self, frame, event, arg):
+        if event == 'return' and frame is self.drain_frame:
+            self.state = 'post'
+        return self.on_drain
+
+    def on_line(self, frame, event, arg):
+        if event == 'line' and self.state == 'post' and not self.fired:
+            if self.count == self.t:
+                self.fire()
+            self.count += 1
+        return self.on_line
+
+    def run(self, call):
+        sys.settrace(self.on_call)
+        try:
+            return call()
+        finally:
+            sys.settrace(None)
 
 
 def malloc_with_gc(heap, n, victim):
@@ -150,6 +241,7 @@ def run_case(c):
     got = []          # block objects by malloc number
     want = {}         # malloc number -> (requested size) for live pattern checks (real only)
     obs = []
+    aux = []
     damage = []
 
     def write_pat(k, n):
@@ -165,6 +257,7 @@ def run_case(c):
                 damage.append([at, k])
 
     for j, op in enumerate(c['ops']):
+        nested = None
         try:
             signal.setitimer(signal.ITIMER_REAL, 3.0)
             r = None
@@ -187,23 +280,40 @@ def run_case(c):
                 if real:
                     want.pop(op[1], None)
                 deferred_free(heap, got[op[1]])
+            elif op[0] == 'M':
+                nested = Nested(heap, got[op[3]], op[2])
+                r = nested.run(lambda: heap.malloc(op[1]))
+                got.append(r)
+                if real:
+                    if nested.fired:
+                        want.pop(op[3], None)
+                    write_pat(len(got) - 1, op[1])
+            elif op[0] == 'F':
+                nested = Nested(heap, got[op[3]], op[2])
+                if real:
+                    want.pop(op[1], None)
+                    want.pop(op[3], None)
+                nested.run(lambda: heap.free(got[op[1]]))
             else:
                 raise SystemExit('bad op %r' % (op,))
         except (KeyError, IndexError, ValueError, AssertionError, TypeError, AttributeError, Stuck) as exc:
             signal.setitimer(signal.ITIMER_REAL, 0)
             if isinstance(exc, Stuck):
                 STUCK[0] += 1
-            if heap._lock.locked():
-                heap._lock.release()
+            force_unlock(heap._lock)
             obs.append([True, [-1, -1, -1], -1, -1, type(exc).__name__])
+            aux.append(dict(pending=[], fired=nested.fired if nested else 0,
+                            nested_err=nested.err if nested else None))
             break
         signal.setitimer(signal.ITIMER_REAL, 0)
         ix = arena_index(heap)
         obs.append([False, blk(ix, r) if r is not None else [-1, -1, -1],
                     len(heap._arenas), n_free(heap)])
+        aux.append(dict(pending=[blk(ix, b) for b in heap._pending_free_blocks],
+                        fired=nested.fired if nested else 0, nested_err=nested.err if nested else None))
         if real:
             check_pats(j)
-    out = dict(obs=obs, snap=snapshot(heap))
+    out = dict(obs=obs, snap=snapshot(heap), aux=aux)
     if real:
         out['damage'] = damage
         for a in heap._arenas:
